@@ -139,7 +139,7 @@ PROPS = {
             {"engine": "D", "crate": "d_node", "harnesses": [
                 {"name": "c07_scratchpad_seq", "covers": ["replaced", "kept"], "quick": {"max_paths": 10000, "timeout": 600}},
                 {"name": "c07_union", "covers": ["transactions", "registers", "cross_kind"], "quick": {"max_paths": 1000, "timeout": 600}},
-                {"name": "c07_scratchpad_conc", "covers": ["settled"], "quick": {"max_paths": 100000, "timeout": 600}},
+                {"name": "c07_scratchpad_conc", "covers": ["settled", "replaced_by_a_delivery", "both_deliveries_stale"], "quick": {"max_paths": 100000, "timeout": 600}},
             ]},
         ],
         "assumptions": NODE_ASSUMPTIONS + [
